@@ -260,6 +260,8 @@ type Features struct {
 	// below such a field (nestedFeatures)
 	NestedList     bool
 	NestedHopTypes map[string]bool
+	// ListRequires: a @requires field one of whose inputs is list-valued is selected
+	ListRequires bool
 }
 
 func (c *Case) Features() Features {
@@ -348,6 +350,7 @@ func (c *Case) Features() Features {
 	f.CovField, f.CovNarrowed, f.CovSameKey = c.covFeatures()
 	f.ScopedHop = c.scopedHopFeature()
 	f.NestedList, f.NestedHopTypes = c.nestedFeatures()
+	f.ListRequires = c.listRequiresFeature()
 	return f
 }
 
@@ -369,11 +372,11 @@ func (c *Case) Summary(v *Verdict) string {
 			}
 		}
 	}
-	return fmt.Sprintf("(sum (subgraphs %d) (types %d) (fetches %d) (entityfetches %d) (abstract %s) (requires %s) (provides %s) (vars %s) (frags %s) (dirs %s) (aliases %s) (ifacerequires %s) (ifaceobjlist %s) (covfield %s) (covnarrowed %s) (covsamekey %s) (scopedhop %s) (nestedlist %s) (nestedhop %s))",
+	return fmt.Sprintf("(sum (subgraphs %d) (types %d) (fetches %d) (entityfetches %d) (abstract %s) (requires %s) (provides %s) (vars %s) (frags %s) (dirs %s) (aliases %s) (ifacerequires %s) (ifaceobjlist %s) (covfield %s) (covnarrowed %s) (covsamekey %s) (scopedhop %s) (nestedlist %s) (nestedhop %s) (listrequires %s))",
 		f.Subgraphs, f.Types, v.Fetches, v.EntityFetches, common.B(f.Abstract), common.B(f.Requires), common.B(f.Provides),
 		common.B(f.Variables), common.B(f.Fragments), common.B(f.Directives), common.B(f.Aliases),
 		common.B(f.IfaceRequires), common.B(f.IfaceObjList), common.B(f.CovField), common.B(f.CovNarrowed), common.B(f.CovSameKey), common.B(f.ScopedHop),
-		common.B(f.NestedList), common.B(nestedHop))
+		common.B(f.NestedList), common.B(nestedHop), common.B(f.ListRequires))
 }
 
 func joinTrunc(xs []string, n int) string {
